@@ -290,6 +290,26 @@ func c10(args []string) int {
 			m.Cancel()
 			rec["um2_after_cancel"], rec["um1_end"] = tt.CallUm2(0), tt.CallUm1(0)
 		}()
+		// an ABSENT name that has a near twin: "T.um1" (value-receiver spelling) while only (*T).um1 exists. Both ways of
+		// installing a mock through the name must end in an error; none may fall back to the twin's address
+		for _, path := range []string{"apply", "as"} {
+			path := path
+			func() {
+				defer func() {
+					if e := recover(); e != nil {
+						rec["absent_"+path+"_panic"] = trunc(fmt.Sprint(e), 120)
+					}
+				}()
+				m2 := mocker.NewUnexportedMethodMocker(pkg, "T")
+				if path == "apply" {
+					m2.Method("um1").Apply(func(_ *fnzoo.T, a int) int { return 33 })
+				} else {
+					m2.Method("um1").As(as).Return(34)
+				}
+				rec["absent_"+path+"_accepted"] = tt.CallUm1(0)
+				m2.Cancel()
+			}()
+		}
 		out.Put(rec)
 	}
 	out.Put(map[string]interface{}{"kind": "history", "mode": mode, "steps": hsteps, "inconsistent": inconsistent, "absent_resolved": resolvedLater, "first": firstHist})
